@@ -22,3 +22,30 @@ Lemma tie_read_layout : f_header_read_layout = layout_names. Proof. reflexivity.
 Lemma tie_read_checks : f_header_read_checks = "h.Magic != Magic ; h.Version != Version ; h.Type == Unknown || h.Type > Cancelled".
 Proof. reflexivity. Qed.
 Lemma tie_single_stream_write : f_msg_write_stream_writes = 1%nat. Proof. reflexivity. Qed.
+
+(* the functions the hand-written model transliterates, statement for statement (string literals blanked,
+   layout collapsed): a rewrite of any of them must be re-read against Message.v / Reader.v *)
+(* Message.Read = Message.v read_msg: 28 bytes through ReadN, Header.Read on them, the size test, a fresh payload of Header.Size bytes through ReadN *)
+Lemma tie_msg_read_text : f_msg_read_text =
+  "func (m *Message) Read(r io.Reader) error { b := make([]byte, HeaderSize) if err := basic.ReadN(r, b, HeaderSize); err != nil { if err == io.EOF { return err } return fmt.Errorf("""", err) } if err := m.Header.Read(bytes.NewBuffer(b)); err != nil { return fmt.Errorf("""", err) } if m.Header.Size > MaxPayloadSize { return fmt.Errorf("""", m.Header.Size) } else if m.Header.Size == 0 { m.Payload = make([]byte, 0) return nil } m.Payload = make([]byte, m.Header.Size) err := basic.ReadN(r, m.Payload, int(m.Header.Size)) if err != nil { return fmt.Errorf("""", err) } return nil }".
+Proof. reflexivity. Qed.
+(* Message.Write = Message.v write_msg: size test, header and payload assembled in a buffer of its own, one WriteN on the stream *)
+Lemma tie_msg_write_text : f_msg_write_text =
+  "func (m *Message) Write(w io.Writer) error { if uint32(len(m.Payload)) != m.Header.Size { return fmt.Errorf("""", len(m.Payload), m.Header.Size) } buf := bytes.NewBuffer(make([]byte, 0, HeaderSize+m.Header.Size)) if err := m.Header.Write(buf); err != nil { return fmt.Errorf("""", err) } if err := basic.WriteN(buf, m.Payload, int(m.Header.Size)); err != nil { return fmt.Errorf("""", err) } err := basic.WriteN(w, buf.Bytes(), int(m.Header.Size+HeaderSize)) if err != nil { if err == io.EOF { return err } if m.Header.Type == Error { err = fmt.Errorf("""", readError(m), err) } return fmt.Errorf("""", m.Header, err) } return nil }".
+Proof. reflexivity. Qed.
+(* basic.ReadN = Reader.v readN (loop until length bytes; EOF classes) *)
+Lemma tie_readN_text : f_readN_text =
+  "func ReadN(r io.Reader, buf []byte, length int) error { size := 0 for size < length { read, err := r.Read(buf[size:]) size += read if err == nil && read != 0 { continue } else if err == io.EOF && size == length { break } else if err == io.EOF && size == 0 { return io.EOF } else { if err == nil { err = fmt.Errorf("""") } return fmt.Errorf("""", size, length, err) } } return nil }".
+Proof. reflexivity. Qed.
+(* basic.WriteN = Reader.v writeN_loop *)
+Lemma tie_writeN_text : f_writeN_text =
+  "func WriteN(w io.Writer, buf []byte, length int) error { size := 0 for size < length { write, err := w.Write(buf[size:]) size += write if err == nil && write != 0 { continue } else if err == io.EOF && size == length { break } else if err == io.EOF && size == 0 { return io.EOF } else { if err == nil { err = fmt.Errorf("""") } return fmt.Errorf("""", size, length, err) } } return nil }".
+Proof. reflexivity. Qed.
+(* Header.Read: the nine fields in order with the three validity tests *)
+Lemma tie_header_read_text : f_header_read_text =
+  "func (h *Header) Read(r io.Reader) (err error) { if err = h.readMagic(r); err != nil { return fmt.Errorf("""", err) } else if h.Magic != Magic { return fmt.Errorf("""", h.Magic) } if h.ID, err = basic.ReadUint32(r); err != nil { return fmt.Errorf("""", err) } if h.Size, err = basic.ReadUint32(r); err != nil { return fmt.Errorf("""", err) } if h.Version, err = basic.ReadUint16(r); err != nil { return fmt.Errorf("""", err) } else if h.Version != Version { return fmt.Errorf("""", h.Version) } if h.Type, err = basic.ReadUint8(r); err != nil { return fmt.Errorf("""", err) } else if h.Type == Unknown || h.Type > Cancelled { return fmt.Errorf("""", h.Type) } if h.Flags, err = basic.ReadUint8(r); err != nil { return fmt.Errorf("""", err) } if h.Service, err = basic.ReadUint32(r); err != nil { return fmt.Errorf("""", err) } if h.Object, err = basic.ReadUint32(r); err != nil { return fmt.Errorf("""", err) } if h.Action, err = basic.ReadUint32(r); err != nil { return fmt.Errorf("""", err) } return nil }".
+Proof. reflexivity. Qed.
+(* Header.Write: the nine fields in order *)
+Lemma tie_header_write_text : f_header_write_text =
+  "func (h *Header) Write(w io.Writer) (err error) { wrap := func(field string, err error) error { return fmt.Errorf("""", field, err) } if err = h.writeMagic(w); err != nil { return wrap("""", err) } if err = basic.WriteUint32(h.ID, w); err != nil { return wrap("""", err) } if err = basic.WriteUint32(h.Size, w); err != nil { return wrap("""", err) } if err = basic.WriteUint16(h.Version, w); err != nil { return wrap("""", err) } if err = basic.WriteUint8(h.Type, w); err != nil { return wrap("""", err) } if err = basic.WriteUint8(h.Flags, w); err != nil { return wrap("""", err) } if err = basic.WriteUint32(h.Service, w); err != nil { return wrap("""", err) } if err = basic.WriteUint32(h.Object, w); err != nil { return wrap("""", err) } if err = basic.WriteUint32(h.Action, w); err != nil { return wrap("""", err) } return nil }".
+Proof. reflexivity. Qed.
